@@ -8,3 +8,8 @@ open AC.Props.C02
 #print axioms C02_ops_eq_spec
 #print axioms C02_ops_sorted
 #print axioms C02_program_evaluate
+#print axioms C02_src_ops
+#print axioms C02_src_isAscending
+#print axioms AC.ChainTie.ops_tie
+#print axioms AC.ChainTie.isAscending_tie
+#print axioms AC.ChainTie.end_tie
